@@ -19,12 +19,44 @@ def _canon_root(p):
     return os.path.join(os.path.realpath(os.path.dirname(p)), os.path.basename(p))
 
 
+def load_ignore(d):
+    """simple documented forms only: `name`, `dir/`, `*.ext`, `**/name` -> list of (pattern, dirs_only)"""
+    for nm in (b".gitignore", b".fdignore"):
+        p = os.path.join(d, nm)
+        if os.path.isfile(p):
+            out = []
+            for line in open(p, "rb").read().split(b"\n"):
+                line = line.strip()
+                if not line or line.startswith(b"#"):
+                    continue
+                dirs_only = line.endswith(b"/")
+                if dirs_only:
+                    line = line[:-1]
+                if line.startswith(b"**/"):
+                    line = line[3:]
+                out.append((line, dirs_only))
+            return out
+    return None
+
+
+def _ignored(stack, path, is_dir):
+    import fnmatch
+    nm = os.path.basename(path)
+    for rules in stack:
+        for pat, dirs_only in rules:
+            if dirs_only and not is_dir:
+                continue
+            if fnmatch.fnmatchcase(nm.decode("latin-1"), pat.decode("latin-1")):
+                return True
+    return False
+
+
 def scan(roots, *, hidden=False, follow=False, report_links=False, depth=None, min_size=1,
-         max_size=None, name_filter=None, blocked=()):
+         max_size=None, name_filter=None, blocked=(), honour_ignore=False, prune=None):
     """-> dict: selected absolute path (bytes) -> (ident, size).
     roots: absolute bytes paths as the user gave them (after joining with cwd)."""
     selected = {}
-    visited = set()
+    visited = {}
 
     def select(path):
         try:
@@ -39,7 +71,7 @@ def scan(roots, *, hidden=False, follow=False, report_links=False, depth=None, m
             return
         selected[path] = ((st.st_dev, st.st_ino), st.st_size)
 
-    def visit(path, level):
+    def visit(path, level, stack=()):
         if path in blocked:
             return
         try:
@@ -50,21 +82,31 @@ def scan(roots, *, hidden=False, follow=False, report_links=False, depth=None, m
         if not hidden and name.startswith(b"."):
             return
         if follow:
-            if path in visited:
+            # cycle protection only: an entry reached again at a smaller nesting level (overlapping
+            # roots, links) is walked again, so that the depth limit is counted from the nearest root
+            if path in visited and visited[path] <= level:
                 return
-            visited.add(path)
+            visited[path] = level
+        if honour_ignore and _ignored(stack, path, stat.S_ISDIR(lst.st_mode)):
+            return
         if stat.S_ISREG(lst.st_mode):
             select(path)
         elif stat.S_ISDIR(lst.st_mode):
+            if prune is not None and prune(path):
+                return
             # a file d levels below a root is selected iff d <= depth
             if depth is not None and level >= depth:
                 return
+            if honour_ignore:
+                rules = load_ignore(path)
+                if rules:
+                    stack = tuple(stack) + (rules,)
             try:
                 names = os.listdir(path)
             except OSError:
                 return
             for nm in names:
-                visit(os.path.join(path, nm), level + 1)
+                visit(os.path.join(path, nm), level + 1, stack)
         elif stat.S_ISLNK(lst.st_mode):
             if not (follow or report_links):
                 return
@@ -81,7 +123,7 @@ def scan(roots, *, hidden=False, follow=False, report_links=False, depth=None, m
                     tgt = os.path.join(os.path.dirname(path), tgt)
                 c = _canon_root(tgt)
                 if c is not None:
-                    visit(c, level)
+                    visit(c, level, stack)
 
     for r in roots:
         c = _canon_root(r)
